@@ -68,6 +68,8 @@ macro_rules! slice_harnesses {
                 if null {
                     assert!(back.len() == 0);
                     assert!(d.len() == 0);
+                    assert!(back.as_ptr() as usize != 0 && (back.as_ptr() as usize) % core::mem::align_of::<T>() == 0,
+                            "C16: NULL view must become a valid empty slice");
                 } else {
                     assert!(back.len() == len && d.len() == len);
                     assert!(back.as_ptr() == arr.as_ptr());
@@ -213,6 +215,10 @@ macro_rules! slice_harnesses {
                 if keep {
                     let back: Box<[T]> = o.into();
                     assert!(back.len() == 0);
+                    // "accepted as the empty slice": a valid empty Box<[T]> is non-null and aligned for T
+                    let p = back.as_ptr() as usize;
+                    assert!(p != 0, "C16: NULL owned view must become a valid (non-null) empty boxed slice");
+                    assert!(p % core::mem::align_of::<T>() == 0, "C16: NULL owned view must become a valid (aligned) empty boxed slice");
                     drop(back);
                 } else {
                     drop(o);
